@@ -664,16 +664,20 @@ func decl4names(c *Ctx, fn *ssa.Function) {
 			problems = append(problems, "does not return the rewritten Fields slice")
 		}
 	}
-	nStores := 0
+	type nameStore struct {
+		st     *ssa.Store
+		prefix ssa.Value
+		elem   ssa.Value
+	}
+	var stores []nameStore
 	ir.Instrs(fn, func(in ssa.Instruction) {
 		st, ok := in.(*ssa.Store)
 		if !ok {
 			return
 		}
-		nStores++
 		ia, isIA := st.Addr.(*ssa.IndexAddr)
-		if !isIA || ia.X != ssa.Value(fieldsCall) || !isRangeIndex(ia.Index) {
-			problems = append(problems, "store is not to names[i] of the range")
+		if !isIA || ia.X != ssa.Value(fieldsCall) || !isLoopIndexOver(ia.Index, ia.X) {
+			problems = append(problems, "store is not to names[i] of the loop over all names")
 			return
 		}
 		bo, isBo := st.Val.(*ssa.BinOp)
@@ -691,35 +695,88 @@ func decl4names(c *Ctx, fn *ssa.Function) {
 				problems = append(problems, "stored at an index other than the one read")
 			}
 		}
-		phi, isPhi := bo.X.(*ssa.Phi)
-		if !isPhi || len(phi.Edges) != 2 {
-			problems = append(problems, "prefix is not a two-way choice")
-			return
-		}
-		// evaluate the controlling condition for len = 1,2,3,7
-		for _, n := range []int64{1, 2, 3, 7} {
-			got, ok := evalPhiOnLen(phi, bo.Y, n)
-			if !ok {
-				problems = append(problems, "cannot evaluate the prefix choice as a function of len(name)")
-				return
-			}
-			want := "--"
-			if n == 1 {
-				want = "-"
-			}
-			if got != want {
-				problems = append(problems, fmt.Sprintf("a name of length %d gets prefix %q, want %q", n, got, want))
-			}
-		}
+		stores = append(stores, nameStore{st, bo.X, bo.Y})
 	})
-	if nStores != 1 {
-		problems = append(problems, fmt.Sprintf("%d stores, expected the one rewriting names[i]", nStores))
+	if len(stores) == 0 {
+		problems = append(problems, "names are never rewritten")
+	}
+	// for a name of length n exactly one store applies and it carries the right prefix
+	for _, n := range []int64{1, 2, 3, 7} {
+		var got []string
+		for _, ns := range stores {
+			applies := true
+			for _, cd := range ir.DominatingConds(ns.st.Block()) {
+				if t, ok := evalLenCond(cd.V, ns.elem, n); ok && t != cd.Want {
+					applies = false
+				}
+			}
+			if !applies {
+				continue
+			}
+			if s, isC := ir.ConstString(ns.prefix); isC {
+				got = append(got, s)
+			} else if phi, isPhi := ns.prefix.(*ssa.Phi); isPhi && len(phi.Edges) == 2 {
+				if s, ok := evalPhiOnLen(phi, ns.elem, n); ok {
+					got = append(got, s)
+				} else {
+					got = append(got, "?")
+				}
+			} else {
+				got = append(got, "?")
+			}
+		}
+		want := "--"
+		if n == 1 {
+			want = "-"
+		}
+		if len(got) != 1 || got[0] != want {
+			problems = append(problems, fmt.Sprintf("a name of length %d gets prefix %q, want %q", n, strings.Join(got, "|"), want))
+		}
 	}
 	if len(problems) > 0 {
 		c.Bad(key, fn.Pos(), "%s", strings.Join(problems, "; "))
 	} else {
 		c.OK(key, fn.Pos(), "every name of strings.Fields(Name) is rewritten to '-'+name iff its length is 1, '--'+name otherwise")
 	}
+}
+
+// evalLenCond evaluates a comparison of len(s') with a constant for len == n, where s' is the same
+// element as s (same SSA value or an equal re-read of it). ok is false for other conditions.
+func evalLenCond(v ssa.Value, s ssa.Value, n int64) (truth, ok bool) {
+	cond, isBo := v.(*ssa.BinOp)
+	if !isBo {
+		return false, false
+	}
+	lc, isCall := cond.X.(*ssa.Call)
+	if !isCall {
+		return false, false
+	}
+	if bi, isB := lc.Call.Value.(*ssa.Builtin); !isB || bi.Name() != "len" {
+		return false, false
+	}
+	a := lc.Call.Args[0]
+	if a != s && ir.ExprKey(a) != ir.ExprKey(s) {
+		return false, false
+	}
+	k, isC := ir.ConstInt(cond.Y)
+	if !isC {
+		return false, false
+	}
+	switch cond.Op {
+	case token.GTR:
+		return n > k, true
+	case token.GEQ:
+		return n >= k, true
+	case token.LSS:
+		return n < k, true
+	case token.LEQ:
+		return n <= k, true
+	case token.EQL:
+		return n == k, true
+	case token.NEQ:
+		return n != k, true
+	}
+	return false, false
 }
 
 // evalPhiOnLen evaluates a 2-edge string phi whose choice is controlled by an
